@@ -36,11 +36,13 @@ class P:
             a, ca = render(ss, rnd.getrandbits(48), d, rnd.random() < 0.5)
             b, cb = render(ss, rnd.getrandbits(48), d, True)
             cases.append("%s\t%s\t%s\t%s" % (hx(a), ",".join("c" + hx(x) for x in ca), hx(b), ",".join("c" + hx(x) for x in cb)))
-        for a, b in [("a b\n", "a \\\n b\n"), ("a;b\n", "a\nb\n"), ("if a; then b; fi\n", "if a # c\nthen\n\n b\nfi\n"), ("a|b\n", "a |\n\n b\n"),
+        fixed = []
+        for a, b in [("a && b\n", "a && \\\n\nb\n"), ("a | b\n", "a | \\\n \n b\n"),
+                     ("a b\n", "a \\\n b\n"), ("a;b\n", "a\nb\n"), ("if a; then b; fi\n", "if a # c\nthen\n\n b\nfi\n"), ("a|b\n", "a |\n\n b\n"),
                      ("a && b\n", "a && # c\n b\n"), ("{ a; }\n", "{\n a\n}\n"), ("for i in 1 2; do a; done\n", "for i in 1 2\ndo\na\ndone\n")]:
             import re
             cb = re.findall(r"#([^\n]*)", b)
-            cases.append("%s\t\t%s\t%s" % (hx(a), hx(b), ",".join("c" + hx(x) for x in cb)))
+            fixed.append("%s\t\t%s\t%s" % (hx(a), hx(b), ",".join("c" + hx(x) for x in cb)))
 
         # derivations: the same structure with independent choices of newline tokens at every linebreak position and of ';' versus
         # newline separators, rendered under independent blank/comment/continuation layouts
@@ -64,6 +66,8 @@ class P:
         return [{"name": "derivation-layout-pairs", "harness": "layout", "driver": None, "cases": dcases, "impl_ok": lambda c, o: o == "ok",
                  "nontrivial": lambda c: c.split("\t")[0] != c.split("\t")[2],
                  "distribution": {"pairs": len(dcases)}},
+                {"name": "fixed-pairs", "harness": "layout", "driver": None, "cases": fixed, "impl_ok": lambda c, o: o == "ok",
+                 "nontrivial": lambda c: True, "distribution": {"pairs": len(fixed)}},
                 {"name": "layout-pairs", "harness": "layout", "driver": None, "cases": cases, "impl_ok": impl_ok,
                  "nontrivial": lambda c: c.split("\t")[0] != c.split("\t")[2],
                  "distribution": {"pairs": len(cases)}}]
@@ -73,6 +77,14 @@ class P:
         return "layouts %r vs %r" % (unhx(f[0]).decode("utf-8", "replace"), unhx(f[2]).decode("utf-8", "replace"))
 
     def classify(self, part, case, impl, model, judge, findings):
+        import re
+        f = case.split("\t")
+        for src in (unhx(f[0]).decode("utf-8", "replace"), unhx(f[2]).decode("utf-8", "replace")):
+            # F45: a line continuation directly followed by an empty or blank line, at a line break after && || |
+            if re.search(r"(&&|\|\||\|)[ \t]*\\\n[ \t]*\n", src) and (impl.startswith("skip:") or impl.startswith("FAIL")):
+                for fd in findings:
+                    if fd.get("id") == "F45" and fd.get("status") == "open":
+                        return "F45"
         return None
 
     def replay(self, payload, C):
